@@ -74,7 +74,7 @@ def plan(tier):
             p2 = dict(params, sym_thr=True)
             P.append(Part(H + "h_solved_balanced", p2, name.replace("]", ",thr]"), kind=kind, group="pipeline-threshold", timeout=1500, path_timeout=120))
     for tw in ("any_solved", "rule", "mcs", "input", "curated"):
-        P.append(Part(H + "h_solved_balanced", {"shape": ["j>>q"], "E": ["C", "H"], "K": 2, "twin": tw}, "pipe.twin[%s]" % tw, kind="twin", group="pipeline", timeout=600))
+        P.append(Part(H + "h_solved_balanced", {"shape": ["j>>q"], "E": ["C", "H"], "K": 2, "twin": tw, "fix": {"m1": 4 if tw == "mcs" else 0, "jq": 0, "qq": 0}}, "pipe.twin[%s]" % tw, kind="twin", group="pipeline", timeout=600))
     return P
 
 
